@@ -20,6 +20,7 @@ rsync -a --exclude '.git' --include '*/' --include '*.go' --include 'go.mod' --i
 mkdir -p "$S/verifsim"
 cp -r "$VERIF/engine/sim/." "$S/verifsim/" || exit 2
 cp "$REPO/teamserver/pkg/handlers/404.html" "$S/verifsim/cmd/sim/404.html" || exit 2
+(cd "$S" && go mod edit -require=github.com/anishathalye/porcupine@v1.3.0) >&2 || exit 2
 (cd "$S" && "$VERIF/bin/verifinst" "$S") >&2 || { echo "build.sh: instrumentation failed" >&2; exit 2; }
 mkdir -p "$VERIF/.cache/$KEY"
 (cd "$S" && go build -o "$BIN" ./verifsim/cmd/sim) >&2 || { echo "build.sh: go build failed" >&2; rm -rf "$VERIF/.cache/$KEY"; exit 2; }
